@@ -849,7 +849,9 @@ where
             }
         };
         let src = dump_str(w, &m.node);
-        let enc = format!("{} {} {} {} {}", hex(&bytes), sz, pc, hfv as u8, ty_str(&m.ty));
+        let cons_ok = catch_unwind(AssertUnwindSafe(|| m.validate(&Ctx::CONSENSUS).is_ok())).unwrap_or(false);
+        let sane_ok = catch_unwind(AssertUnwindSafe(|| m.validate(&Ctx::SANE).is_ok())).unwrap_or(false);
+        let enc = format!("{} {} {} {} {} {} {}", hex(&bytes), sz, pc, hfv as u8, ty_str(&m.ty), cons_ok as u8, sane_ok as u8);
         emit_case::<Ctx>(w, cd, id, "gen", &bytes, Some(&src), Some(&enc), &mut out);
         if keep.len() < 400 {
             keep.push(bytes.clone());
@@ -936,9 +938,118 @@ fn world_lines(w: &World) {
     }
 }
 
-/// `codec <seed> <n_ast per ctx> <edits per ast> <n_rand per ctx>`; or `codec replay <ctx> <hex>`
+/// rebuild an AST from its prefix dump (keys as world indices) with from_ast
+fn undump<Ctx: ScriptContext>(w: &World, tap: bool, toks: &mut std::slice::Iter<String>) -> Option<Arc<Ms<Ctx>>> {
+    use bitcoin::hashes::{hash160, ripemd160, sha256};
+    use miniscript::hash256;
+    use Terminal as T;
+    let t = toks.next()?.clone();
+    let num = |toks: &mut std::slice::Iter<String>| -> Option<usize> { toks.next()?.parse().ok() };
+    let keyt = |toks: &mut std::slice::Iter<String>| -> Option<Key> { Some(w.key(toks.next()?.parse().ok()?, tap)) };
+    let raw = |toks: &mut std::slice::Iter<String>| -> Option<Vec<u8>> {
+        let h = toks.next()?;
+        (0..h.len() / 2).map(|i| u8::from_str_radix(&h[2 * i..2 * i + 2], 16).ok()).collect()
+    };
+    let term: Terminal<Key, Ctx> = match t.as_str() {
+        "1" => T::True,
+        "0" => T::False,
+        "pk_k" => T::PkK(keyt(toks)?),
+        "pk_h" => T::PkH(keyt(toks)?),
+        "raw_pk_h" => T::RawPkH(hash160::Hash::from_slice(&raw(toks)?).ok()?),
+        "after" => T::After(AbsLockTime::from_consensus(num(toks)? as u32).ok()?),
+        "older" => T::Older(RelLockTime::from_consensus(num(toks)? as u32).ok()?),
+        "sha256" => T::Sha256(sha256::Hash::from_slice(&raw(toks)?).ok()?),
+        "hash256" => T::Hash256(hash256::Hash::from_slice(&raw(toks)?).ok()?),
+        "ripemd160" => T::Ripemd160(ripemd160::Hash::from_slice(&raw(toks)?).ok()?),
+        "hash160" => T::Hash160(hash160::Hash::from_slice(&raw(toks)?).ok()?),
+        "a" => T::Alt(undump(w, tap, toks)?),
+        "s" => T::Swap(undump(w, tap, toks)?),
+        "c" => T::Check(undump(w, tap, toks)?),
+        "d" => T::DupIf(undump(w, tap, toks)?),
+        "v" => T::Verify(undump(w, tap, toks)?),
+        "j" => T::NonZero(undump(w, tap, toks)?),
+        "n" => T::ZeroNotEqual(undump(w, tap, toks)?),
+        "and_v" | "and_b" | "or_b" | "or_d" | "or_c" | "or_i" => {
+            let x = undump(w, tap, toks)?;
+            let y = undump(w, tap, toks)?;
+            match t.as_str() {
+                "and_v" => T::AndV(x, y),
+                "and_b" => T::AndB(x, y),
+                "or_b" => T::OrB(x, y),
+                "or_d" => T::OrD(x, y),
+                "or_c" => T::OrC(x, y),
+                _ => T::OrI(x, y),
+            }
+        }
+        "andor" => {
+            let a = undump(w, tap, toks)?;
+            let b = undump(w, tap, toks)?;
+            let c = undump(w, tap, toks)?;
+            T::AndOr(a, b, c)
+        }
+        "thresh" => {
+            let k = num(toks)?;
+            let n = num(toks)?;
+            let mut subs = Vec::new();
+            for _ in 0..n {
+                subs.push(undump(w, tap, toks)?);
+            }
+            T::Thresh(Threshold::new(k, subs).ok()?)
+        }
+        "multi" | "sortedmulti" | "multi_a" | "sortedmulti_a" => {
+            let k = num(toks)?;
+            let n = num(toks)?;
+            let mut ks = Vec::new();
+            for _ in 0..n {
+                ks.push(keyt(toks)?);
+            }
+            match t.as_str() {
+                "multi" => T::Multi(Threshold::new(k, ks).ok()?),
+                "sortedmulti" => T::SortedMulti(Threshold::new(k, ks).ok()?),
+                "multi_a" => T::MultiA(Threshold::new(k, ks).ok()?),
+                _ => T::SortedMultiA(Threshold::new(k, ks).ok()?),
+            }
+        }
+        _ => return None,
+    };
+    fa(term)
+}
+
+fn replay_ast<Ctx: ScriptContext>(w: &World, cd: &CtxDesc, dump: &[String])
+where
+    Ctx::Key: ToPublicKey + ParseableKey,
+{
+    let mut it = dump.iter();
+    let mut out = String::new();
+    match undump::<Ctx>(w, cd.tap, &mut it) {
+        Some(m) => {
+            let bytes = m.encode().into_bytes();
+            let cons_ok = m.validate(&Ctx::CONSENSUS).is_ok();
+            let sane_ok = m.validate(&Ctx::SANE).is_ok();
+            let src = dump_str(w, &m.node);
+            let enc = format!("{} {} {} {} {} {} {}", hex(&bytes), m.script_size(), m.ext.pk_cost, m.ext.has_free_verify as u8, ty_str(&m.ty), cons_ok as u8, sane_ok as u8);
+            emit_case::<Ctx>(w, cd, "replay", "gen", &bytes, Some(&src), Some(&enc), &mut out);
+        }
+        None => writeln!(out, "X cannot rebuild the AST in this context").unwrap(),
+    }
+    print!("{}", out);
+}
+
+/// `codec <seed> <n_ast per ctx> <edits per ast> <n_rand per ctx>`; `codec replay <ctx> <hex>`;
+/// `codec replay-ast <ctx> <prefix dump tokens...>`
 pub fn run(args: &[String]) {
     let w = World::new();
+    if args.first().map(|s| s.as_str()) == Some("replay-ast") {
+        world_lines(&w);
+        match args[1].as_str() {
+            "bare" => replay_ast::<BareCtx>(&w, &CtxDesc { name: "bare", tap: false }, &args[2..]),
+            "legacy" => replay_ast::<Legacy>(&w, &CtxDesc { name: "legacy", tap: false }, &args[2..]),
+            "segwitv0" => replay_ast::<Segwitv0>(&w, &CtxDesc { name: "segwitv0", tap: false }, &args[2..]),
+            _ => replay_ast::<Tap>(&w, &CtxDesc { name: "tap", tap: true }, &args[2..]),
+        }
+        println!("EOF");
+        return;
+    }
     if args.first().map(|s| s.as_str()) == Some("replay") {
         world_lines(&w);
         let ctx = args[1].as_str();
@@ -951,6 +1062,7 @@ pub fn run(args: &[String]) {
             _ => emit_case::<Tap>(&w, &CtxDesc { name: "tap", tap: true }, "replay", "replay", &bytes, None, None, &mut out),
         }
         print!("{}", out);
+        println!("EOF");
         return;
     }
     let seed: u64 = args.first().and_then(|s| s.parse().ok()).unwrap_or(1);
